@@ -130,6 +130,11 @@ fn new_buffer(size: (i32, i32), table: &Table) -> Buffer {
     for (slot, fi) in &table.slots {
         buf.set_font(*slot, fi.font.clone());
     }
+    // documents with more than one font exist in every font mode (the mode restricts what an editor offers, not what a file holds)
+    if table.slots.len() > 1 {
+        static MODE: std::sync::atomic::AtomicU64 = std::sync::atomic::AtomicU64::new(0);
+        buf.font_mode = match MODE.fetch_add(1, std::sync::atomic::Ordering::Relaxed) % 4 { 0 => icy_engine::FontMode::Unlimited, 1 => icy_engine::FontMode::Single, 2 => icy_engine::FontMode::FixedSize, _ => icy_engine::FontMode::Sauce };
+    }
     // a font editor changes the glyphs of the document's font IN PLACE (font_iter_mut): for derived fonts in slot 0 the same
     // glyphs are written again that way, so that the document does not depend on how set_font treated the font object
     for (slot, fi) in &table.slots {
